@@ -143,6 +143,8 @@ def cases(tier, seed):
         if d["models"]:
             yield ("by-parameter-after-by-model", name, None)
         yield ("pairs-and-frame", name, None)
+        yield ("compiled-next-to-direct", name, None)
+        yield ("default-after-late-registration", name, None)
 
 
 def check_case(case):
@@ -496,6 +498,144 @@ def _check_case_rest(case, kind, pname, arg, P, w):
                     if not (got == want and got.module is want.module):
                         return (f"{pname}.pairs.device", f"{r1} then {r2} in one compile: {iname} became {got.module.name} "
                                                          f"{got.params}, alone it becomes {want.module.name} {want.params}", w)
+        return None
+    if kind == "compiled-next-to-direct":
+        # one design holding a compiled generic primitive AND a directly instantiated device of the PDK which is the same
+        # cell (PDK packages offer their devices for direct use under another object than the one the compiler picks):
+        # "all other instances are untouched", and the compiled design exports and netlists
+        import io as _io
+        spaces = [P["pkg"]] + [getattr(P["pkg"], n, None) for n in ("primitives", "pdk", "pdk_logic")]
+        direct = {}
+        for sp_ in spaces:
+            for nm in (dir(sp_) if sp_ is not None else ()):
+                o = getattr(sp_, nm, None)
+                if isinstance(o, h.ExternalModule):
+                    direct.setdefault((o.domain, o.name), []).append(o)
+        pairs = []
+        for r in mos_requests("quick"):
+            if len(P["mos"](h.Mos(**r).params)) == 1:
+                pairs.append((h.Mos(**r), 4))
+        for pk, table in P["passives"].items():
+            for key, dev in list(table.items())[:4]:
+                prim = {"res": (h.primitives.PhysicalResistor, h.primitives.ThreeTerminalResistor),
+                        "cap": (h.primitives.PhysicalCapacitor, h.primitives.ThreeTerminalCapacitor),
+                        "diode": (h.primitives.Diode, h.primitives.Diode), "bjt": (h.primitives.Bipolar, h.primitives.Bipolar)}[pk]
+                try:
+                    pairs.append((prim[1 if len(dev.ports) == 3 and pk in ("res", "cap") else 0](model=key), len(dev.ports)))
+                except Exception:
+                    pass
+        done = 0
+        for call, nports in pairs:
+            alone = design(call, depth=1, shared=False)
+            try:
+                P["compile"](alone)
+            except Exception:
+                continue
+            dev = [t for pth, t in leaf_targets(alone).items() if pth[-1] == "dev"][0]
+            if not isinstance(dev, h.ExternalModuleCall):
+                continue
+            if sorted(p_.name for p_ in dev.module.port_list) != sorted(p_.name for p_ in call.prim.port_list):
+                continue      # (devices whose terminals differ from the generic primitive's: the recorded C15 finding)
+            for twin in direct.get((dev.module.domain, dev.module.name), [dev.module]):
+                for depth in (0, 1):
+                    m = h.Module(name="NextToDirect")
+                    sigs = {p_.name: m.add(h.Signal(name="n_" + p_.name, width=p_.width)) for p_ in twin.port_list}
+                    gports = [p_.name for p_ in call.prim.port_list]
+                    m.add(call(**{pn: list(sigs.values())[k % len(sigs)] for k, pn in enumerate(gports)}), name="generic")
+                    try:
+                        params = dev.params if isinstance(dev.params, twin.paramtype) else twin.paramtype()
+                        m.add(twin(params)(**sigs), name="direct")
+                    except Exception:
+                        continue
+                    top = m
+                    if depth:
+                        top = h.Module(name="NextToDirectTop")
+                        top.inner = m()
+                    before = leaf_targets(top)
+                    try:
+                        P["compile"](top)
+                    except Exception as e:
+                        return (f"{pname}.next-to-direct.raises", f"compile of {call.prim.name} next to a direct {twin.name}: "
+                                                                  f"{type(e).__name__}: {str(e)[:100]}", w)
+                    after = leaf_targets(top)
+                    dkey = [k for k in after if k[-1] == "direct"]
+                    if not dkey or after[dkey[0]] is not before[dkey[0]]:
+                        return (f"{pname}.next-to-direct.touched", f"the directly instantiated {twin.name} was replaced by the compile", w)
+                    try:
+                        pkg = h.to_proto(top)
+                        for fmt in ("spice", "spectre"):
+                            h.netlist(top, _io.StringIO(), fmt=fmt)
+                    except Exception as e:
+                        return (f"{pname}.next-to-direct.export", f"a design holding a compiled {call.prim.name} and a direct "
+                                                                  f"{twin.name} (depth {depth}) does not export / netlist: "
+                                                                  f"{type(e).__name__}: {str(e)[-120:]}", w)
+                    probs = wf_package(pkg)
+                    if probs:
+                        return (f"{pname}.next-to-direct.invalid", f"{twin.name}: {probs[0][:160]}", w)
+                    done += 1
+        if not done:
+            return (f"{pname}.next-to-direct.harness", "no device pair could be built", w)
+        return None
+    if kind == "default-after-late-registration":
+        # the default PDK is a function of what is registered and what was set NOW - not of which lookups happened while
+        # fewer PDKs were registered: a fresh process imports this PDK only, resolves the default (by lookup / by a
+        # targetless compile), THEN imports a second PDK; with two registered and none set there is no default
+        import json
+        import subprocess
+        import sys
+        from pyvc import loader
+        script = (
+            "import sys, json\n"
+            "import hdl21 as h\n"
+            "import hdl21.pdk as hp\n"
+            "from hdl21.primitives import MosType, MosFamily, MosVth\n"
+            "import importlib\n"
+            "first, second, how = sys.argv[1:4]\n"
+            "out = {}\n"
+            "def design():\n"
+            "    m = h.Module(name='D')\n"
+            "    m.d, m.g, m.s, m.b = h.Signals(4)\n"
+            "    m.n = h.Mos(tp=MosType.NMOS, family=MosFamily.CORE, vth=MosVth.STD)(d=m.d, g=m.g, s=m.s, b=m.b)\n"
+            "    return m\n"
+            "hp.pdk._mgr.modules.clear(); hp.pdk._mgr.names.clear(); hp.pdk._mgr.default = None\n"
+            "for k in [k for k in sys.modules if k.startswith('hdl21.pdk.sample_pdk')]: del sys.modules[k]\n"
+            "m1 = importlib.import_module(first)\n"
+            "out['registered1'] = sorted(m.__name__ for m in hp.pdk._mgr.modules)\n"
+            "if how == 'lookup':\n"
+            "    out['default1'] = getattr(hp.default(), '__name__', None)\n"
+            "elif how == 'compile':\n"
+            "    try: hp.compile(design()); out['compile1'] = 'ok'\n"
+            "    except Exception as e: out['compile1'] = 'raises ' + type(e).__name__\n"
+            "m2 = importlib.import_module(second)\n"
+            "out['registered2'] = sorted(m.__name__ for m in hp.pdk._mgr.modules)\n"
+            "out['default2'] = getattr(hp.default(), '__name__', None)\n"
+            "d = design()\n"
+            "try:\n"
+            "    hp.compile(d)\n"
+            "    out['compile2'] = 'compiled to ' + str(getattr(getattr(d.n.of, 'module', None), 'name', d.n.of))\n"
+            "except RuntimeError as e:\n"
+            "    out['compile2'] = 'raises RuntimeError'\n"
+            "print('REG' + json.dumps(out, sort_keys=True))\n")
+        names = {"sample": "hdl21.pdk.sample_pdk", "sky130": "sky130_hdl21", "gf180": "gf180_hdl21", "asap7": "asap7_hdl21"}
+        first = names[pname]
+        env = dict(os.environ, PYTHONPATH=os.pathsep.join([ROOT, loader.REPO] + [os.path.join(loader.REPO, "pdks", d_) for d_ in
+                                                                                ("Sky130", "Gf180", "Asap7")]))
+        for second in [n for k, n in names.items() if k != pname][:2]:
+            res = {}
+            for how in ("none", "lookup", "compile"):
+                r = subprocess.run([sys.executable, "-c", script, first, second, how], capture_output=True, text=True, env=env, timeout=600, cwd=ROOT)
+                line = [l for l in r.stdout.splitlines() if l.startswith("REG")]
+                if not line:
+                    return (f"{pname}.registration.harness", f"worker failed: {r.stderr[-300:]}", w)
+                res[how] = json.loads(line[0][3:])
+            base = res["none"]
+            if len(base["registered2"]) < 2:
+                continue      # (importing the first PDK registers the second as well: no late registration to speak of)
+            for how in ("lookup", "compile"):
+                for key in ("registered2", "default2", "compile2"):
+                    if res[how][key] != base[key]:
+                        return ("pdk.default.history", f"{first} registered, default resolved by {how}, then {second} registered: "
+                                                       f"{key} is {res[how][key]!r}; without the early {how} it is {base[key]!r}", w)
         return None
     if kind == "dispatch-unknown-name":
         # a PDK name nobody registered is an error - whatever default is in force - never a compile to some other PDK
